@@ -314,11 +314,7 @@ def run_case(spec, sub=None):
                 methods=[COUNT], optlib="random", max_repeats=spec["max_repeats"],
                 parallel=False, minimize=spec["minimize"], on_trial_error="raise",
             )
-            # (only slice when every label takes part in a pairwise
-            # contraction: the slice finder is not specified otherwise)
-            if spec["slicing"] and net["sizes"] and all(
-                sum(ix in t for t in net["inputs"]) >= 2 for ix in net["sizes"]
-            ):
+            if spec["slicing"] and net["sizes"]:
                 kw["slicing_opts"] = {"target_slices": 2, "max_repeats": 2}
             return ctg.ReusableHyperOptimizer(**common, **kw)
         return ReusableRandomGreedyOptimizer(
